@@ -43,6 +43,15 @@ func runConfig(prop, tier, goos, goarch string) *childOut {
 	c := &Ctx{Program: p, Prop: prop, Tier: tier}
 	props[prop].run(c)
 	out.Obs, out.Anchors, out.Notes = c.Obs, c.Anchors, c.Notes
+	if p.Inlined > 0 || len(p.NewKept) > 0 {
+		out.Notes = append(out.Notes, fmt.Sprintf("%s/%s: %d call(s) of functions the reference tree does not have were expanded into their callers before the rules ran (fully expanded: %s; kept as functions: %s)", goos, goarch, p.Inlined, strings.Join(p.InlinedAway, ", "), strings.Join(p.NewKept, ", ")))
+	}
+	if len(p.Reordered) > 0 {
+		out.Notes = append(out.Notes, fmt.Sprintf("%s/%s: parameter order put back to the reference tree's for: %s", goos, goarch, strings.Join(p.Reordered, ", ")))
+	}
+	if p.Normalized > 0 {
+		out.Notes = append(out.Notes, fmt.Sprintf("%s/%s: %d function(s) had merged-condition branches / merged returns split into the plain if form", goos, goarch, p.Normalized))
+	}
 	if p.ConstBranches > 0 {
 		out.Notes = append(out.Notes, fmt.Sprintf("%s/%s: %d branch(es) on a constant condition; the side that can never run was removed from the flow graph before the rules ran", goos, goarch, p.ConstBranches))
 	}
